@@ -56,11 +56,11 @@ CHECKS["C10"] = ("exploration", _T,
     "Executions of all shipped algorithms (18 algorithm/parameter configurations) with every value_selection call and every current_value logged as a domain "
     "index; TLC checks membership at every step.", _N, "DESIGN.md section 4 C10")
 CHECKS["C06"] = ("model_checking",
-    "TLC-enumerated calls with results computed from Relations.tla (helpers); TLC trace validation (AlgoMon.tla) of real DSA / A-DSA executions (moves); TLC model checking of Dsa.tla (all schedules and draws) with replay of every transition on the real DsaComputation",
+    "TLC-enumerated calls with results computed from Relations.tla (helpers); TLC trace validation (AlgoMon.tla) of real DSA / A-DSA executions (moves); TLC model checking of Dsa.tla (all schedules and draws) with replay of every transition on the real DsaComputation, and of Adsa.tla (A-DSA: starts, timer firings and deliveries in every order, bounded number of ticks) with replay on the real ADsaComputation",
     "Part 1: TLC enumerates calls of find_optimal / find_arg_optimal / optimal_cost_value / projection over the cost algebra of Costs.tla (negative, > 2^31, "
     "+inf, -inf; own-cost dict and function variables; min and max) with the exact optimal value sets and costs; each is executed on the real functions. "
     "Part 2: executions of the real DSA (A, B, C) and A-DSA computations; at every change of value TLC checks that the new value is in ArgBestLocal computed "
-    "from the value messages of that evaluation. Part 3: Dsa.tla (invariant MovesAreBestResponses) checked exhaustively on TLC-drawn instances and bound to the code by replay.", _N, "DESIGN.md section 4 C06")
+    "from the value messages of that evaluation. Part 3: Dsa.tla (invariant MovesAreBestResponses) checked exhaustively on TLC-drawn instances and bound to the code by replay. Part 4: the same with Adsa.tla for A-DSA (variants A, B, C; periodic actions as steps; up to 2-3 ticks per computation).", _N, "DESIGN.md section 4 C06")
 CHECKS["C11"] = ("model_checking",
     "TLC-enumerated relations x slicing walks with the expected slices (Gen_C11.tla/Relations.tla), executed on the real relation classes per PYTHONHASHSEED",
     "TLC enumerates relations of all eight kinds over ordered scopes (every declared order x textual/parameter order for expression and python-function "
